@@ -1094,6 +1094,27 @@ def run_edit(inp):
     seen = set()
     for q in inp["pre"]:
         edit_read(kind, obj, q); seen.add(q)
+    if inp.get("derive"):
+        # the user edits an object DERIVED from this one: the source (and the caller's array) must not notice
+        how = inp["derive"]
+        src = obj if kind == "dataset" else arr_obj
+        try:
+            if how == "native": der = src.native
+            elif how == "slim": der = src.slim
+            elif how == "copy": der = src.copy()
+            elif how == "normalized": der = src.normalized
+            elif how == "flipped": der = src.flipped
+            elif how == "trim": der = src.trimmed_after_convolution_from(kernel_shape=(3, 3))
+            elif how == "pad": der = src.padded_before_convolution_from(kernel_shape=(3, 3))
+            elif how == "resize": der = src.resized_from(new_shape=(len(mask2d) + 2, len(mask2d[0]) + 1))
+            elif how == "edge": der = src.derive_mask.edge
+            elif how == "invert": der = src.invert()
+            elif how == "neg": der = -src
+            else: raise ValueError(how)
+            target = der.data if kind == "dataset" else der
+            target[(0,) * np.ndim(target._array)] = True if kind == "mask" else (complex(7, -7) if kind == "vis" else 77.0)
+        except Exception as e:   # noqa  (a derivation that this object does not support: nothing was edited)
+            if isinstance(e, ValueError) and str(e) == how: raise
     for (key, val) in inp["edits"]:
         k = tuple(key) if len(key) > 1 else key[0]
         if kind == "mask": arr_obj[k] = bool(val)
@@ -1107,7 +1128,8 @@ def run_edit(inp):
         if got != edit_read(kind, t, q): bad.append(f"{kind}.{q} after an in-place edit is not the quantity of the edited contents")
     if kind != "vis" and not np.array_equal(nd, nd0, equal_nan=True):      # Visibilities(ndarray) stores the caller's array by design
         bad.append("the caller's array changed when the constructed object was edited")
-    res = {"coq": None, "out": {"bad": bad[:4]}, "py_ok": not bad, "nontrivial": bool(inp["pre"]) and bool(inp["edits"]), "kind": "edit:" + kind}
+    res = {"coq": None, "out": {"bad": bad[:4]}, "py_ok": not bad, "nontrivial": bool(inp["pre"]) and (bool(inp["edits"]) or bool(inp.get("derive"))),
+           "kind": "edit:" + kind + (":derived-" + inp["derive"] if inp.get("derive") else "")}
     if bad: res["detail"] = "; ".join(bad[:4])
     return res
 def gen_edit(rng):
@@ -1137,7 +1159,13 @@ def gen_edit(rng):
     qs = EDIT_Q[kind]
     pre = rng.sample(qs, rng.randint(1, min(4, len(qs))))
     post = sorted(set(pre[:2] + rng.sample(qs, rng.randint(1, min(4, len(qs))))))
-    return {"op": "edit", "kind": kind, "mask": mask, "store_native": sn, "shape": shape, "v": v, "pre": pre, "edits": edits, "post": post}
+    derive = None
+    if rng.random() < 0.5:
+        derive = rng.choice({"array": ["native", "slim", "copy", "trim", "pad", "resize", "neg"], "kernel": ["native", "slim", "copy", "normalized"],
+                             "grid": ["native", "slim", "copy", "flipped", "neg"], "vector": ["native", "slim", "copy"], "vis": ["copy", "neg"],
+                             "mask": ["copy", "edge", "invert"], "dataset": ["trim"]}[kind])
+        edits = []        # only the derived object is edited: every quantity of the source is compared with the twin of its unchanged contents
+    return {"op": "edit", "kind": kind, "mask": mask, "store_native": sn, "shape": shape, "v": v, "pre": pre, "edits": edits, "post": post, "derive": derive}
 
 # ----------------------------------------------------------------------------- fits: FitImaging -> dataset -> inversion
 FIT_Q = ["data", "noise_map", "model_data", "signal_to_noise_map", "residual_map", "normalized_residual_map", "chi_squared_map",
@@ -1363,7 +1391,15 @@ GNODES = {
                ("vis", "amplitudes", GC), ("ds", "amplitudes", GP), ("ds", "dirty_image", GP), ("ds", "dirty_noise_map", GP),
                ("ds", "uv_distances", GP), ("ds", "w_tilde", GP), ("hold", "ds2", GC), ("ds2", "grids", GC), ("ds2", "amplitudes", GP)],
 }
-GINST = {0: "mesh", 1: "mesh", 2: "fit", 3: "chain", 4: "interf"}
+GNODES["wtilde"] = [("ds", "data", GI), ("ds", "noise_map", GI), ("ds", "psf", GI), ("mapper", "source_plane_data_grid", GI),
+                    ("ds", "convolver", GC), ("ds", "w_tilde", GI), ("mapper", "pix_sub_weights", GC), ("mapper", "unique_mappings", GC),
+                    ("mapper", "mapping_matrix", GC), ("inv", "w_tilde_data", GC), ("inv", "data_vector", GC), ("inv", "curvature_matrix", GC),
+                    ("inv", "regularization_matrix", GC), ("inv", "regularization_matrix_reduced", GC), ("inv", "curvature_reg_matrix", GC),
+                    ("inv", "curvature_reg_matrix_reduced", GC), ("inv", "reconstruction", GC), ("inv", "reconstruction_reduced", GC),
+                    ("inv", "mapped_reconstructed_data_dict", GP), ("inv", "mapped_reconstructed_data", GC), ("inv", "mapping_matrix", GC),
+                    ("inv", "operated_mapping_matrix", GC), ("inv", "regularization_term", GC), ("inv", "log_det_curvature_reg_matrix_term", GC),
+                    ("inv", "log_det_regularization_matrix_term", GC)]
+GINST = {0: "mesh", 1: "mesh", 2: "fit", 3: "chain", 4: "interf", 5: "wtilde"}
 class Holder:
     """the user's variables: a derived dataset is bound when it is first asked for"""
     def __init__(self, ds, osd, mask2): self.ds, self.osd, self.mask2 = ds, osd, mask2
@@ -1409,7 +1445,7 @@ def build_interf(cfg):
     return {"ds": it, "vis": vis, "mapper": mapper, "inv": inv, "hold": Holder(it, osd2, None)}, [m, vis_nd, nm_nd, uv, mask, vis, nm, osd, osd2, settings]
 def gbuild(inst, cfg):
     if inst in (0, 1): return build_mesh_graph(cfg)
-    if inst == 2:
+    if inst in (2, 5):
         fit, ds, mappers, owned = build_fit(cfg)
         return {"fit": fit, "ds": ds, "mapper": mappers[0], "inv": fit.inversion}, owned
     if inst == 3: return build_chain(cfg)
@@ -1493,8 +1529,8 @@ def gen_gcase(rng, inst):
     if inst in (0, 1):
         cfg = gen_mesh(rng)["cfg"]; cfg["kind"] = "voronoi" if inst == 1 else "delaunay"; cfg["reg"] = "split"; cfg["pixel_mask"] = None
         ok = [n for n in range(len(nodes)) if not (inst == 0 and n == 7)]      # Mesh2DDelaunay has no areas_for_magnification
-    elif inst == 2:
-        cfg = rand_cfg(rng); cfg.update(preloads=[], funcs=[], mappers=[[3, 3, rng.choice([1.0, 2.0])]], w_tilde=False, positive=False)
+    elif inst in (2, 5):
+        cfg = rand_cfg(rng); cfg.update(preloads=[], funcs=[], mappers=[[3, 3, rng.choice([1.0, 2.0])]], w_tilde=(inst == 5), positive=False)
         ok = list(range(len(nodes)))
     elif inst == 3:
         cfg = rand_cfg(rng); H, W = cfg["shape"]; cfg["native"] = rng.random() < 0.5
@@ -1910,11 +1946,11 @@ def gen_inputs(tier, rng):
     # object reuse: one dataset / mapper / settings / Preloads object serving several inversions
     for k in range(200 if big else 16): yield gen_reuse(rng)
     # read -> the user edits the object in place -> re-read
-    for k in range(400 if big else 40): yield gen_edit(rng)
+    for k in range(600 if big else 60): yield gen_edit(rng)
     # fits: FitImaging -> dataset -> inversion -> mappers
     for k in range(240 if big else 16): yield gen_fit(rng)
     # PART D: reads on the quantity graphs of Model/C11g.v (cache fills and changed entries are compared inside Coq)
-    for k in range(300 if big else 35): yield gen_gcase(rng, k % 5)
+    for k in range(300 if big else 36): yield gen_gcase(rng, k % 6)
     for k in range(120 if big else 18):
         H, W = rng.randint(2, 4), rng.randint(2, 4)
         vias = ["simulator", "poisson", "gaussian", "interferometer"]
